@@ -494,7 +494,42 @@ func runWorker(c *Check, tier string, q *coord, id int, deadline time.Time, scra
 		q.mu.Unlock()
 		onResult(&res)
 		q.cond.Broadcast()
+		// a long-lived worker grows (race-detector shadow state, stacks of aborted executions): recycle
+		// it between jobs once it is large, so that 16 of them never exhaust the machine
+		if rssMB(cmd.Process.Pid) > workerRSSLimitMB() {
+			cmd.Process.Kill()
+			cmd.Wait()
+			if err := start(); err != nil {
+				q.mu.Lock()
+				q.broken = append(q.broken, "cannot restart worker: "+err.Error())
+				q.stop = true
+				q.mu.Unlock()
+				q.cond.Broadcast()
+				return
+			}
+		}
 	}
+}
+
+func workerRSSLimitMB() int {
+	if n, err := strconv.Atoi(os.Getenv("VERIF_WORKER_RSS_MB")); err == nil && n > 0 {
+		return n
+	}
+	return 1200
+}
+
+// rssMB reads the resident set size of a process from /proc (0 if unavailable).
+func rssMB(pid int) int {
+	b, err := os.ReadFile(fmt.Sprintf("/proc/%d/statm", pid))
+	if err != nil {
+		return 0
+	}
+	f := strings.Fields(string(b))
+	if len(f) < 2 {
+		return 0
+	}
+	pages, _ := strconv.Atoi(f[1])
+	return pages * os.Getpagesize() / (1 << 20)
 }
 
 // Evidence mirrors EVIDENCE.schema.json.
